@@ -1450,3 +1450,233 @@ Proof.
     + simpl. rewrite H3, E. reflexivity.
     + apply subseq_skip_app. apply sub_take. exact S.
 Qed.
+
+(* ====================================================================== *)
+(* 7. C10 item 1, bindings: shadowing restores the outer variable          *)
+(* ====================================================================== *)
+
+(* [assigns x s]: s contains a variable assignment [x = ...] (at any depth;
+   declarations [x := ...] and loop variables named x do not count) *)
+Fixpoint assigns (x : str) (s : stmt) : bool :=
+  match s with
+  | SAssign (EVar n _) _ => str_eqb n x
+  | SIf conds els =>
+      existsb (fun cb => let '(_, b) := cb in existsb (assigns x) b) conds ||
+      match els with Some b => existsb (assigns x) b | None => false end
+  | SWhile _ b => existsb (assigns x) b
+  | SFor _ _ _ b => existsb (assigns x) b
+  | _ => false
+  end.
+
+(* the cell bound to x in each frame *)
+Definition bindings (x : str) (e : env) : list (option loc) := map (frame_get x) e.
+
+Lemma bindings_tl x e : bindings x (tl e) = tl (bindings x e).
+Proof. destruct e; reflexivity. Qed.
+
+Lemma frame_get_replace_other x y l f : str_eqb y x = false -> frame_get x (frame_replace y l f) = frame_get x f.
+Proof.
+  intro N. induction f as [|[k l'] t IH]; simpl; [reflexivity|].
+  destruct (str_eqb k y) eqn:E; simpl.
+  - apply str_eqb_eq in E; subst k. rewrite N. reflexivity.
+  - rewrite IH. reflexivity.
+Qed.
+
+Lemma env_update_other x y l e e' :
+  env_update y l e = Some e' -> str_eqb y x = false -> bindings x e' = bindings x e.
+Proof.
+  intros H N. revert e' H. induction e as [|f t IH]; simpl; intros e' H; [discriminate|].
+  destruct (frame_get y f).
+  - inversion H; subst. simpl. rewrite frame_get_replace_other by exact N. reflexivity.
+  - destruct (env_update y l t) as [t'|]; simpl in H; [|discriminate].
+    inversion H; subst. simpl. f_equal. apply IH. reflexivity.
+Qed.
+
+Lemma post_update_var_other x y l e :
+  post (update_var y l e) (fun e' => str_eqb y x = false -> bindings x e' = bindings x e).
+Proof.
+  intros s e' s' H N. unfold update_var in H.
+  destruct (str_eqb y underscore); [inversion H; subst; reflexivity|].
+  destruct (env_update y l e) eqn:E.
+  - inversion H; subst. eapply env_update_other; eassumption.
+  - destruct (frame_get y (st_globals s)); inversion H; subst; reflexivity.
+Qed.
+
+Definition var_in_top (var : str) (e : env) : Prop :=
+  str_eqb var underscore = true \/ In var (names (hd [] e)).
+
+Lemma post_update_var_top var l e :
+  post (update_var var l e) (fun e' => var_in_top var e -> tl e' = tl e /\ var_in_top var e').
+Proof.
+  intros s e' s' H [U|I]; unfold update_var in H.
+  - rewrite U in H. inversion H; subst. split; [reflexivity | left; exact U].
+  - destruct (str_eqb var underscore) eqn:U; [inversion H; subst; split; [reflexivity | right; exact I]|].
+    destruct e as [|f t]; [contradiction|]. simpl in I. pose proof I as I'. apply frame_get_In in I.
+    simpl in H. destruct (frame_get var f); [|congruence]. inversion H; subst.
+    split; [reflexivity|]. right. simpl. fold (names (frame_replace var l f)). rewrite frame_replace_names. exact I'.
+Qed.
+
+Lemma var_in_top_ext var e e' : ext e e' -> var_in_top var e -> var_in_top var e'.
+Proof. intros X [U|I]; [left; exact U | right; eapply ext_keeps_name; eassumption]. Qed.
+
+Section Shadow.
+  Variable x : str.
+
+  Definition keeps (e e' : env) : Prop := bindings x e' = bindings x e.
+  Definition keeps_tl (e e' : env) : Prop := bindings x (tl e') = bindings x (tl e).
+
+  Lemma keeps_tl_of e e' : keeps e e' -> keeps_tl e e'.
+  Proof. unfold keeps, keeps_tl. rewrite !bindings_tl. intros ->. reflexivity. Qed.
+
+  Definition shadow_inv (n : nat) : Prop :=
+    (forall P e s, post (exec_stmt n P e s)
+       (fun r => assigns x s = false ->
+                 keeps_tl e (snd r) /\ (is_decl s = false -> keeps e (snd r)))) /\
+    (forall P e l, post (exec_stmts n P e l)
+       (fun r => existsb (assigns x) l = false -> keeps_tl e (snd r))) /\
+    (forall P e l, post (exec_block n P e l)
+       (fun r => existsb (assigns x) l = false -> keeps_tl e (snd r))) /\
+    (forall P e c body, post (exec_cond n P e c body)
+       (fun r => existsb (assigns x) body = false -> keeps e (snd r))) /\
+    (forall P e c body, post (exec_while n P e c body)
+       (fun r => existsb (assigns x) body = false -> keeps e (snd r))) /\
+    (forall P e var rg body, post (exec_for n P e var rg body)
+       (fun r => var_in_top var e -> existsb (assigns x) body = false -> keeps_tl e (snd r))).
+
+  Lemma keep_same e (b : bool) : keeps_tl e e /\ (b = false -> keeps e e).
+  Proof. split; [|intro]; reflexivity. Qed.
+
+  Lemma keep_all e e' (b : bool) : keeps e e' -> keeps_tl e e' /\ (b = false -> keeps e e').
+  Proof. intro H. split; [apply keeps_tl_of; exact H | intro; exact H]. Qed.
+
+  Lemma keeps_push_pop e e2 : keeps_tl ([] :: e) e2 -> keeps e (tl e2).
+  Proof. unfold keeps_tl, keeps. simpl. tauto. Qed.
+
+  Lemma if_go_keeps f P els :
+    (forall e l, post (exec_block f P e l)
+       (fun r => existsb (assigns x) l = false -> keeps_tl e (snd r))) ->
+    (forall e c body, post (exec_cond f P e c body)
+       (fun r => existsb (assigns x) body = false -> keeps e (snd r))) ->
+    forall cs e, post (if_go f P els cs e)
+       (fun r => assigns x (SIf cs els) = false -> keeps e (snd r)).
+  Proof.
+    intros HB HC cs. induction cs as [|[c body] t IH]; intro e.
+    - simpl. destruct els as [body|]; [|apply post_ret; intros _; reflexivity].
+      eapply post_bind; [apply HB|]. intros [sig e1] H; simpl in H.
+      apply post_ret; simpl. intro A. apply keeps_push_pop. apply H. exact A.
+    - cbn [if_go]. eapply post_bind; [apply HC|]. intros [r e1] H; simpl in H.
+      destruct r as [sig|].
+      + apply post_ret; simpl. intro A. apply H.
+        apply orb_false_iff in A as [A _]. apply orb_false_iff in A as [A _]. exact A.
+      + eapply post_weaken; [apply IH|]. intros rr Ha; simpl in Ha. simpl. intro A.
+        apply orb_false_iff in A as [A A2]. apply orb_false_iff in A as [A0 A1].
+        unfold keeps in *. rewrite Ha; [apply H; exact A0|]. simpl. rewrite A1, A2. reflexivity.
+  Qed.
+
+  Lemma frame_set_has v l f1 : In v (names (frame_set v l f1)).
+  Proof.
+    unfold frame_set. destruct (frame_get v f1) eqn:G.
+    - rewrite frame_replace_names. apply frame_get_In. congruence.
+    - left; reflexivity.
+  Qed.
+
+  Lemma bind_loopvar_top var z f1 t :
+    post (bind_loopvar var z (f1 :: t))
+         (fun e2 => tl e2 = t /\ var_in_top (loopvar_name var) e2).
+  Proof.
+    destruct var as [v|]; simpl; [|apply post_ret; split; [reflexivity | left; reflexivity]].
+    apply post_bind_any; intro l. intros s e2 s' H. unfold set_var in H.
+    destruct (str_eqb v underscore) eqn:U; [inversion H; subst; split; [reflexivity | left; exact U]|].
+    inversion H; subst. split; [reflexivity|]. right. simpl. apply frame_set_has.
+  Qed.
+
+  Lemma for_init_top f P f1 t var vt r :
+    post (for_init f P (f1 :: t) var vt r)
+         (fun p => tl (snd p) = t /\ var_in_top (loopvar_name var) (snd p)).
+  Proof.
+    destruct r; simpl.
+    - do 3 (apply post_bind_any; intro). mstep; [mstep|].
+      eapply post_bind; [apply bind_loopvar_top|]. intros; apply post_ret; assumption.
+    - do 2 (apply post_bind_any; intro). mstep; try apply post_internal;
+        (eapply post_bind; [apply bind_loopvar_top|]; intros; apply post_ret; assumption).
+  Qed.
+
+  Theorem shadow_inv_all : forall n, shadow_inv n.
+  Proof.
+    induction n as [|f IH].
+    { unfold shadow_inv; repeat apply conj; intros; apply post_fail. }
+    destruct IH as (Hs & Hss & Hb & Hc & Hw & Hf).
+    unfold shadow_inv; repeat apply conj.
+    - intros P e s. destruct s.
+      + simpl. do 4 (apply post_bind_any; intro).
+        eapply post_bind; [apply post_set_var|]. intros e' [_ H2].
+        apply post_ret; simpl. intros _. split; [unfold keeps_tl; rewrite H2; reflexivity | discriminate].
+      + simpl. do 4 (apply post_bind_any; intro).
+        destruct target; try (apply post_internal).
+        * eapply post_bind; [apply (post_update_var_other x)|]. intros e' H.
+          apply post_ret; simpl. intro A. apply keep_all. apply H. exact A.
+        * repeat mstep; simpl; intros _; apply keep_same.
+        * repeat mstep; simpl; intros _; apply keep_same.
+      + simpl. repeat mstep. simpl. intros _; apply keep_same.
+      + simpl. apply post_bind_any; intro. destruct e0; repeat mstep; simpl; intros _; apply keep_same.
+      + simpl. repeat mstep; simpl; intros _; apply keep_same.
+      + rewrite exec_stmt_if. apply post_bind_any; intro.
+        eapply post_weaken; [apply if_go_keeps; [apply Hb | apply Hc]|].
+        intros rr Ha A. apply keep_all. apply Ha. exact A.
+      + simpl. apply post_bind_any; intro.
+        eapply post_weaken; [apply Hw|]. intros rr Ha A. apply keep_all. apply Ha. exact A.
+      + rewrite exec_stmt_for. apply post_bind_any; intro.
+        eapply post_bind; [apply for_init_top|]. intros [rg e2] [T V]; simpl in T, V.
+        eapply post_bind; [apply Hf|]. intros [sig e3] H3; simpl in H3.
+        apply post_ret; simpl. intro A. apply keep_all.
+        specialize (H3 V A). unfold keeps_tl in H3. rewrite T in H3. exact H3.
+      + simpl. repeat mstep; simpl; intros _; apply keep_same.
+    - intros P e l. destruct l as [|s t]; [rewrite exec_stmts_nil; apply post_ret; intros _; reflexivity|].
+      rewrite exec_stmts_cons. eapply post_bind; [apply Hs|]. intros [sig e1] H; simpl in H.
+      destruct (is_ctl sig).
+      + apply post_ret. simpl. intro A. apply orb_false_iff in A as [A _]. apply H; exact A.
+      + eapply post_weaken; [apply Hss|]. intros rr Ha; simpl in Ha. simpl. intro A.
+        apply orb_false_iff in A as [A1 A2]. unfold keeps_tl in *. rewrite (Ha A2). apply H; exact A1.
+    - intros P e l. rewrite exec_block_unfold. apply post_bind_any; intro. apply Hss.
+    - intros P e c body. rewrite exec_cond_unfold. do 2 (apply post_bind_any; intro).
+      destruct a0; try apply post_internal. destruct b; [|apply post_ret; intros _; reflexivity].
+      eapply post_bind; [apply Hb|]. intros [sig e2] H; simpl in H.
+      apply post_ret; simpl. intro A. apply keeps_push_pop. apply H; exact A.
+    - intros P e c body. rewrite while_unfold.
+      eapply post_bind; [apply Hc|]. intros [r e1] H; simpl in H.
+      destruct r as [[| |v]|]; try (apply post_ret; exact H).
+      eapply post_weaken; [apply Hw|]. intros rr Ha; simpl in Ha. simpl. intro A.
+      unfold keeps in *. rewrite (Ha A). apply H; exact A.
+    - intros P e var rg body. rewrite exec_for_unfold. apply post_bind_any; intros [[l rg']|]; simpl;
+        [|apply post_ret; intros _ _; reflexivity].
+      eapply post_bind; [apply post_update_var_top|]. intros e1 H1.
+      intros s r s' H V A. destruct (H1 V) as [T1 V1].
+      apply bindM_inv in H as ([sig e2] & s2 & H2 & H).
+      pose proof H2 as H2'. apply Hb in H2'. simpl in H2'. specialize (H2' A).
+      assert (V2 : var_in_top var e2).
+      { eapply var_in_top_ext; [|exact V1]. destruct (scope_inv_all f) as (_ & _ & Hbs & _).
+        apply Hbs in H2. exact H2. }
+      assert (K : keeps_tl e e2) by (unfold keeps_tl in *; rewrite H2', T1; reflexivity).
+      destruct sig; try (inversion H; subst; exact K).
+      apply Hf in H. simpl in H. specialize (H V2 A). unfold keeps_tl in *. rewrite H. exact K.
+  Qed.
+End Shadow.
+
+(* A block that contains no assignment [x = ...] leaves x bound, in every
+   frame of the enclosing environment, to the cell it was bound to before —
+   whatever it declares (shadowing x at any depth), loops over, or calls. *)
+Theorem shadowing_restores_outer x n P e body st sig e2 st' :
+  exec_block n P ([] :: e) body st = (Ok (sig, e2), st') ->
+  existsb (assigns x) body = false ->
+  bindings x (tl e2) = bindings x e.
+Proof.
+  intros H A. destruct (shadow_inv_all x n) as (_ & _ & Hb & _). apply Hb in H. exact (H A).
+Qed.
+
+Theorem compound_keeps_bindings x n P e s st sig e' st' :
+  exec_stmt n P e s st = (Ok (sig, e'), st') ->
+  assigns x s = false ->
+  bindings x (tl e') = bindings x (tl e) /\ (is_decl s = false -> bindings x e' = bindings x e).
+Proof.
+  intros H A. destruct (shadow_inv_all x n) as (Hs & _). apply Hs in H. exact (H A).
+Qed.
